@@ -11,7 +11,7 @@ from hypothesis import strategies as st
 from . import plotgen
 
 SUBSETS = ["state", "gradp", "I_R", "divU", "p"]
-SPECIES_POOL = ["H2", "O2", "H2O", "N2", "OH", "CH4", "CO2", "CH2(S)"]
+SPECIES_POOL = ["H2", "CH2(S)", "O2", "H2O", "N2", "OH", "CH4", "CO2"]       # a name with parentheses among the first
 
 
 @st.composite
@@ -32,7 +32,7 @@ def chk_specs(draw, tier="quick"):
                 nspec=nspec, nghost=draw(st.integers(1, 3)), int_line=draw(st.booleans()),
                 coord_line=draw(st.sampled_from([True, True, False])),
                 layouts={s: (dict(cls="single", seed=0, nfiles=1) if big else draw(plotgen.layouts())) for s in SUBSETS},
-                seed=draw(st.integers(0, 9999)), big=big)
+                seed=draw(st.integers(0, 9999)), big=big, ynorm=draw(st.integers(0, 2 ** 16)) % 3 == 0)
 
 
 class Checkpoint:
@@ -73,6 +73,11 @@ class Checkpoint:
                 arr[..., 3] = r.uniform(0.1, 2.0, size=shp[:3])                      # density
                 arr[..., 4:4 + self.nspec] = r.uniform(0.05, 1.0, size=shp[:3] + (self.nspec,))   # Y: positive, sum != 1
                 arr[..., -2] = r.uniform(300.0, 2500.0, size=shp[:3])               # temp
+                if self.spec.get("ynorm"):
+                    # a solver's mass fractions: they sum to one up to a conservation error of a few 1e-6
+                    Y = arr[..., 4:4 + self.nspec]
+                    Y /= Y.sum(axis=-1, keepdims=True)
+                    Y *= (1.0 + r.uniform(-3e-6, 3e-6, size=shp[:3]))[..., np.newaxis]
             self._cache[key] = arr
         return self._cache[key]
 
@@ -102,6 +107,8 @@ class Checkpoint:
             lab.append("state/gradp-layouts-differ")
         if self.spec.get("big"):
             lab.append("state-file>1MB")
+        if self.spec.get("ynorm"):
+            lab.append("mass-fractions-sum-to-1+-3e-6")
         return lab
 
 
